@@ -172,11 +172,12 @@ PROPERTIES = {
                      "non-finite floats (strings on the wire) are reported under C06"]),
     "C19": dict(mode="G", load_pkgs=["./internal/openapiv3"], pkgpath=MOD + "/internal/openapiv3", test_pkg="./internal/openapiv3", test_pkgname="openapiv3",
                 init=DEFAULT_INIT,
-                overlay={"internal/openapiv3/zz_verif_c19.go": "harness/c19/c19_rules.go"},
+                overlay={"internal/openapiv3/zz_verif_c19.go": "harness/c19/c19_rules.go", "internal/openapiv3/zz_verif_c19f.go": "harness/c19/c19_float.go"},
                 harnesses=[dict(func="VerifC19Int32", reach=["C19/int32/decided", "C19/int32/exclusive"], quick=dict(budget=200), thorough=dict(budget=600)),
                            dict(func="VerifC19Uint32", reach=["C19/uint32/decided"], quick=dict(budget=200), thorough=dict(budget=600)),
                            dict(func="VerifC19Collections", reach=["C19/collections/decided"], quick=dict(budget=200), thorough=dict(budget=600)),
-                           dict(func="VerifC19String", reach=["C19/string/decided"], quick=dict(budget=200), thorough=dict(budget=600))],
+                           dict(func="VerifC19String", reach=["C19/string/decided"], quick=dict(budget=200), thorough=dict(budget=600)),
+                           dict(func="VerifC19Float", reach=["C19/float/bounds", "C19/float/const-in"], quick=dict(budget=100), thorough=dict(budget=300))],
                 bounds_text={"quick": "int32/uint32: lower bound in {none,gte,gt} x upper bound in {none,lte,lt} x const x in-list of 0..2 values, all values and the probe over the full 32-bit range; "
                                       "collections: min/max items/pairs < 2^62, sizes 0..3; strings: min/max length < 2^62 (probe length as a number), const/in with strings <= 4, 8 well-known formats"},
                 assumptions=["rule pairs with upper bound below lower bound (buf.validate's reversed-range semantics) are assumed away",
@@ -287,7 +288,8 @@ PROPERTIES = {
         harnesses=[dict(func="VerifC11Int64Decoder", reach=["C11/int64/accepted", "C11/int64/rejected"], quick=dict(budget=200), thorough=dict(budget=600)),
                    dict(func="VerifC11TopLevel", reach=["C11/top-level/decided"], quick=dict(budget=200), thorough=dict(budget=600)),
                    dict(func="VerifC11OneofDecoder", reach=["C11/oneof/decided"], quick=dict(budget=200), thorough=dict(budget=600)),
-                   dict(func="VerifC11TimeDecoder", reach=["C11/time/accepted", "C11/time/rejected"], quick=dict(budget=200), thorough=dict(budget=600))],
+                   dict(func="VerifC11TimeDecoder", reach=["C11/time/accepted", "C11/time/rejected"], quick=dict(budget=200), thorough=dict(budget=600)),
+                   dict(func="VerifC11BinderRejectsTrailingData", reach=["C11/binder/decided"], quick=dict(budget=100), thorough=dict(budget=300))],
         bounds_text={"quick": "every custom decoder x top-level JSON category (null, bool, number, string, array, syntax error, {}, object with an unknown key); NUMBER-encoded int64/uint64/repeated fields x value of any category (integer full range, string <= 4 over [0-9a.-], fraction, 1e30, bool, null, array, object); discriminated oneof decoders x discriminator/variant of any category; obligations: no reachable panic, non-objects rejected, success only with every inspected value decoded to exactly what was sent"},
         assumptions=E_ASSUMPTIONS + CODEC_ASSUMPTIONS + ["robustness of the real encoding/json / protojson / proto parsers on raw bytes is trusted (library); resource exhaustion by size or depth is outside",
                                                          "client-side handling of arbitrary responses is covered only as far as C10's harness goes"]),
